@@ -16,6 +16,7 @@ package main
 import (
 	"fmt"
 	"strings"
+	"time"
 
 	"verifharness/vh"
 )
@@ -36,6 +37,10 @@ func main() {
 			cf, labels, err := parseReplay(e.Replay)
 			if err != nil {
 				panic(err)
+			}
+			if strings.HasPrefix(e.Replay, "burst:") {
+				emitBurst(e, cf.variant, 200000, 20*time.Second)
+				return
 			}
 			if strings.HasPrefix(e.Replay, "stress:") {
 				emitStress(e, cf, 400)
@@ -105,6 +110,14 @@ func main() {
 						cf.keys = cf.keys[:2]
 					}
 					emitStress(e, cf, stressIters)
+				}
+			}
+			// 5. first use of a key under real concurrency
+			if want(e, vn+"/fresh-key-burst") {
+				if e.Thorough || e.Search {
+					emitBurst(e, v, 200000, 20*time.Second)
+				} else {
+					emitBurst(e, v, 20000, 1500*time.Millisecond)
 				}
 			}
 		}
